@@ -63,6 +63,10 @@ SIMPLE = [
     S("assign", "{n1} = E({e1}, {p})", cur="n1"),
     S("chain", "{n1} = {n2} = E({e1}, {p})", cur="n2"),
     S("aug", "{p} += E({e1}, 1)"),
+    S("aug-alias", ["{n1} = [E({e1}, {p})]", "{n2} = {n1}", "{n1} += [E({e2}, 1)]", "{n3} = len({n2})"], cur="n3"),
+    S("chain-unpack-first", "{n1}, {n2} = {n3} = PAIR(E({e1}, {p}))", cur="n2"),
+    S("chain-unpack-last", "{n3} = {n1}, {n2} = PAIR(E({e1}, {p}))", cur="n2"),
+    S("shadowed-builtin", "{n1} = abs(E({e1}, {p}))", cur="n1"),
     S("ann", "{n1}: int = E({e1}, {p})", cur="n1"),
     S("walrus", "E({e1}, ({n1} := E({e2}, {p})))", cur="n1"),
     S("unpack-tuple", "{n1}, {n2} = PAIR(E({e1}, {p}))", cur="n2"),
@@ -197,13 +201,13 @@ def statements(ctx, budget, tier, only, depth, maxdepth):
             yield lines, c5._replace(cur=c2.cur, loop=ctx.loop), (form.name,) + forms, 1 + used
 
 
-def render(lines, flags):
+def render(lines, flags, tail=True):
     params = ["x"]
     if "o" in flags:
         params.append("o")
     if "d" in flags:
         params.append("d")
-    body = ["    " + ln for ln in lines] + ["    return E(99, SNAP(locals()))"]
+    body = ["    " + ln for ln in lines] + (["    return E(99, SNAP(locals()))"] if tail else [])
     fn = [f"def f({', '.join(params)}):"] + body
     if "closure" in flags:
         src = "def make(c):\n" + "\n".join("    " + ln for ln in fn) + "\n    return f\nf = make(10)\n"
@@ -212,10 +216,12 @@ def render(lines, flags):
     return src
 
 
-def programs(size, tier, only=None, maxdepth=2, must=None):
-    """Every program with 1..size nodes.  `only`: restrict the menu; `must`: a form that has to occur."""
+def programs(size, tier, only=None, maxdepth=2, must=None, tails=(True,)):
+    """Every program with 1..size nodes.  `only`: restrict the menu; `must`: a form that has to occur;
+    tails: with the final `return E(99, SNAP(locals()))` (True) and/or falling off the end (False)."""
     ctx0 = Ctx(0, 0, "x", frozenset(), False)
     for lines, ctx, forms, used in blocks(ctx0, size, tier, only, 0, maxdepth):
         if must is not None and not (set(forms) & must):
             continue
-        yield Prog(render(lines, ctx.flags), forms, ctx.flags, used)
+        for tail in tails:
+            yield Prog(render(lines, ctx.flags, tail), forms if tail else forms + ("fall-off-end",), ctx.flags, used)
